@@ -468,7 +468,10 @@ func (v *Value) toGoValueInterval(rootValues []*Value, checkCircularReference bo
 		return array, nil
 	case ValueObj:
 		obj := make(map[string]interface{})
-		for k, objVal := range *v.Obj {
+		// sorted keys, so that which member is reported when several cannot
+		// be converted does not depend on Go's map order
+		for _, k := range sortedKeys(*v.Obj) {
+			objVal := (*v.Obj)[k]
 			val, err := objVal.Value.toGoValueInterval(append(rootValues, v), true)
 			if err != nil {
 				return nil, err
